@@ -316,7 +316,7 @@ func (w *World) restart(ctx context.Context, p int, amount int) error {
 	for _, t := range todo {
 		var s iface.Store
 		var err error
-		opts := &iface.CreateDBOptions{}
+		opts := w.storeOptions()
 		switch t.kind {
 		case "kv":
 			s, err = pr.odb.KeyValue(ctx, t.addr, opts)
